@@ -438,6 +438,9 @@ func Gen(t *rapid.T, tier string) any {
 	sc := &Scenario{
 		ServerName: rapid.SampledFrom(serverNames).Draw(t, "server_name"),
 		Strict:     rapid.Bool().Draw(t, "strict"),
+		AAAAOff:    rapid.Bool().Draw(t, "aaaa_off"),
+		RefuseAny:  rapid.Bool().Draw(t, "refuse_any"),
+		DDR:        rapid.Bool().Draw(t, "ddr"),
 	}
 	for _, id := range persistent {
 		if rapid.IntRange(0, 2).Draw(t, "filter_off_"+id[:1]) > 0 {
@@ -449,7 +452,22 @@ func Gen(t *rapid.T, tier string) any {
 		maxOps = 16
 	}
 	nops := rapid.IntRange(2, maxOps).Draw(t, "nops")
-	reconfProne := rapid.IntRange(0, 5).Draw(t, "reconf_prone") == 0
+	reconfProne := rapid.IntRange(0, 3).Draw(t, "reconf_prone") == 0
+	// Questions whose name is the same for every request of the kind are told
+	// apart by the operation they belong to: one of a kind per operation.
+	oneOfAKind := func(reqs []Req) {
+		seen := map[string]bool{}
+		for j := range reqs {
+			q := reqs[j].Q
+			if q == "canary6" {
+				q = "canary"
+			}
+			if fixedName(q) && seen[q] {
+				reqs[j].Q = ""
+			}
+			seen[q] = true
+		}
+	}
 	for i := 0; i < nops; i++ {
 		k := rapid.IntRange(0, 9).Draw(t, "op_kind")
 		switch {
@@ -464,6 +482,7 @@ func Gen(t *rapid.T, tier string) any {
 				rq.Fault = ""
 				op.Reqs = append(op.Reqs, rq)
 			}
+			oneOfAKind(op.Reqs)
 			sc.Ops = append(sc.Ops, op)
 		case k <= 5:
 			sc.Ops = append(sc.Ops, Op{Kind: "req", Reqs: []Req{genReq(t, sc.ServerName)}})
@@ -473,6 +492,7 @@ func Gen(t *rapid.T, tier string) any {
 			for j := 0; j < n; j++ {
 				op.Reqs = append(op.Reqs, genReq(t, sc.ServerName))
 			}
+			oneOfAKind(op.Reqs)
 			idx := make([]int, n)
 			for j := range idx {
 				idx[j] = j
@@ -836,6 +856,8 @@ type inflight struct {
 	p    *dnsnode.Prepared
 	rep  *dnsnode.Reply
 	ref  verdict
+	// blocked: the question's name is one the global custom rule blocks.
+	blocked bool
 }
 
 func (r *runner) nextFault(req *dns.Msg) env.UpstreamFault {
@@ -850,13 +872,38 @@ func (r *runner) prepare(rq *Req) (*inflight, error) {
 	if rq.Blocked {
 		kind = "blocked"
 	}
-	f := &inflight{rq: rq, name: fmt.Sprintf("r%d.%s.test.", r.seq, kind)}
-	if rq.Fault != "" {
-		r.mu.Lock()
-		r.faults[f.name] = env.UpstreamFault(rq.Fault)
-		r.mu.Unlock()
+	f := &inflight{rq: rq, name: fmt.Sprintf("r%d.%s.test.", r.seq, kind), blocked: rq.Blocked}
+	qtype := dns.TypeA
+	switch rq.Q {
+	case "":
+	case "aaaa":
+		qtype = dns.TypeAAAA
+	case "any":
+		qtype = dns.TypeANY
+	case "canary", "canary6":
+		// https://support.mozilla.org/en-US/kb/canary-domain-use-application-dnsnet
+		f.name, f.blocked = "use-application-dns.net.", false
+		if rq.Q == "canary6" {
+			qtype = dns.TypeAAAA
+		}
+	case "health":
+		f.name, f.blocked = "healthcheck.adguardhome.test.", false
+	case "ddr":
+		// RFC 9462.
+		f.name, f.blocked, qtype = "_dns.resolver.arpa.", false, dns.TypeSVCB
+	case "ptr_private":
+		f.name, f.blocked, qtype = fmt.Sprintf("%d.%d.168.192.in-addr.arpa.", r.seq%250+1, r.seq/250), false, dns.TypePTR
+	default:
+		return nil, fmt.Errorf("harness: unknown question kind %q", rq.Q)
 	}
-	q := &dnsnode.Query{Proto: rq.Proto, Addr: netip.MustParseAddrPort(sources[rq.Src]), Name: f.name, Qtype: dns.TypeA,
+	r.mu.Lock()
+	if rq.Fault != "" {
+		r.faults[f.name] = env.UpstreamFault(rq.Fault)
+	} else {
+		delete(r.faults, f.name)
+	}
+	r.mu.Unlock()
+	q := &dnsnode.Query{Proto: rq.Proto, Addr: netip.MustParseAddrPort(sources[rq.Src]), Name: f.name, Qtype: qtype,
 		SNI: rq.SNI, Path: rq.Path, Host: rq.Host, NoTLS: rq.NoTLS, MsgID: uint16(1000 + r.seq)}
 	var err error
 	if f.p, err = r.n.Prepare(q); err != nil {
@@ -897,6 +944,9 @@ func (r *runner) collect() {
 
 func describe(rq *Req, f *inflight) string {
 	s := fmt.Sprintf("proto=%s", rq.Proto)
+	if rq.Q != "" {
+		s += " q=" + rq.Q
+	}
 	switch rq.Proto {
 	case "tls", "quic":
 		s += fmt.Sprintf(" sni=%q", short(rq.SNI))
@@ -959,11 +1009,26 @@ func (r *runner) judge(tag string, f *inflight) error {
 
 	if len(logs) == 0 && !upstreamFailed {
 		// The request was not processed.
-		c.Eventf("%s %s -> failed rcode=%d writes=%d http=%d allowed=%s", tag, desc, rcode, f.rep.Writes, f.rep.HTTPStatus, ref)
 		if len(exch) > 0 || len(stats) > 0 {
+			c.Eventf("%s %s -> unlogged rcode=%d writes=%d http=%d allowed=%s", tag, desc, rcode, f.rep.Writes, f.rep.HTTPStatus, ref)
 			return fail("failed-request-leaked", "no query-log record, but %d upstream exchanges and %d statistics updates", len(exch), len(stats))
 		}
+		if rq.Q != "" && (ref.none || len(ref.ids) > 0) && f.rep.Msg != nil && rcode != dns.RcodeServerFailure {
+			// A question of a kind the server may answer by itself (a disabled
+			// type, a refused type, a reserved name): the statement does not
+			// say that such an answer is recorded anywhere, and the request
+			// was not one that must fail.
+			c.Probe("answered_by_server_unrecorded")
+			c.Eventf("%s %s -> answered by the server itself rcode=%d answers=%d allowed=%s", tag, desc, rcode, answers, ref)
+			return nil
+		}
+		c.Eventf("%s %s -> failed rcode=%d writes=%d http=%d allowed=%s", tag, desc, rcode, f.rep.Writes, f.rep.HTTPStatus, ref)
 		if f.rep.Msg != nil && (rcode == dns.RcodeSuccess || answers > 0) {
+			if rq.Q != "" && ref.why == "strict-foreign-name" && ref.idFromPath != "" {
+				// Accepted on the strength of the path's identifier and then
+				// answered by the server itself.
+				return fail("strict-sni-bypassed-by-doh-path", "strict server-name checking is on and the server name is outside the configured domain, yet the request was accepted and answered (rcode=%d; path names ClientID %q)", rcode, ref.idFromPath)
+			}
 			return fail("unlogged-answer", "reply rcode=%d with %d answers, but nothing was logged", rcode, answers)
 		}
 		if !ref.fail {
@@ -981,6 +1046,12 @@ func (r *runner) judge(tag string, f *inflight) error {
 		switch ref.why {
 		case "invalid-label":
 			c.Probe("rejected_invalid_label")
+			for _, ch := range rq.SNI + f.p.DecodedPath {
+				if ch == 0x212a || ch == 0x017f || ch == 0x0130 || ch == 0x0131 || ch >= 0xff21 && ch <= 0xff5a {
+					c.Probe("nonascii_lookalike_label")
+					break
+				}
+			}
 		case "extra-path-segments":
 			c.Probe("rejected_extra_segments")
 		case "strict-foreign-name":
@@ -1017,9 +1088,12 @@ func (r *runner) judge(tag string, f *inflight) error {
 		}
 		// The settings that were applied must be the ones of the client the
 		// request is attributed to.
-		wantForwarded := !rq.Blocked || r.filterOff[id]
+		wantForwarded := !f.blocked || r.filterOff[id]
 		if forwarded != wantForwarded {
-			return fail("settings-attribution-mismatch", "logged ClientID %q (filtering off: %v), blocked name: %v, but forwarded=%v", id, r.filterOff[id], rq.Blocked, forwarded)
+			return fail("settings-attribution-mismatch", "logged ClientID %q (filtering off: %v), blocked name: %v, but forwarded=%v", id, r.filterOff[id], f.blocked, forwarded)
+		}
+		if rq.Q != "" {
+			c.Probe("special_question_processed")
 		}
 	} else {
 		// The upstream failed, so nothing was logged; the only trace of the
@@ -1039,7 +1113,7 @@ func (r *runner) judge(tag string, f *inflight) error {
 			}
 			return fail("malformed-not-rejected", "forwarded although the statement demands failure")
 		}
-		if rq.Blocked {
+		if f.blocked {
 			// Forwarded although the name is blocked globally: only a client
 			// with filtering off explains it, and the reference must allow one.
 			ok := false
@@ -1067,7 +1141,7 @@ func (r *runner) judge(tag string, f *inflight) error {
 		if id != "" {
 			c.Probe("id_attributed")
 			r.attributed[id] = true
-			if r.filterOff[id] && rq.Blocked {
+			if r.filterOff[id] && f.blocked {
 				c.Probe("id_settings_applied")
 			}
 			switch {
@@ -1127,6 +1201,13 @@ func refPathHasID(f *inflight) bool {
 
 func (r *runner) apply(i int, op *Op) error {
 	c := r.c
+	// Questions with a fixed name are told apart by operation (the generator
+	// puts at most one of a kind into an operation).
+	for _, name := range []string{"use-application-dns.net.", "healthcheck.adguardhome.test.", "_dns.resolver.arpa."} {
+		delete(r.logs, name)
+		delete(r.stats, name)
+		delete(r.exch, name)
+	}
 	switch op.Kind {
 	case "reconf":
 		for id := range r.attributed {
@@ -1318,7 +1399,8 @@ func Run(t *testing.T, scAny any, c *kernel.Ctx) error {
 				BlockedServices: &filtering.BlockedServices{Schedule: schedule.EmptyWeekly()},
 			})
 		}
-		cfg.DNS = dnsforward.Config{CacheSize: 0, UpstreamMode: dnsforward.UpstreamModeLoadBalance}
+		cfg.DNS = dnsforward.Config{CacheSize: 0, UpstreamMode: dnsforward.UpstreamModeLoadBalance,
+			AAAADisabled: sc.AAAAOff, RefuseAny: sc.RefuseAny, HandleDDR: sc.DDR}
 		n, err := dnsnode.New(cfg)
 		if err != nil {
 			return err
@@ -1330,7 +1412,7 @@ func Run(t *testing.T, scAny any, c *kernel.Ctx) error {
 		}()
 		r.n = n
 		kernel.Wait()
-		c.Eventf("node server_name=%q strict=%v filter_off=%d", sc.ServerName, sc.Strict, len(ids))
+		c.Eventf("node server_name=%q strict=%v aaaa_off=%v refuse_any=%v ddr=%v filter_off=%d", sc.ServerName, sc.Strict, sc.AAAAOff, sc.RefuseAny, sc.DDR, len(ids))
 		for i := range sc.Ops {
 			if err := r.apply(i, &sc.Ops[i]); err != nil {
 				return err
@@ -1371,5 +1453,5 @@ var Prop = &kernel.Property{
 	ProbeNames: []string{"sched_steps", "sched_switches", "id_attributed", "id_settings_applied", "id_from_sni", "id_from_sni_doh", "id_from_path", "id_from_host_header", "id_both_sources", "processed_without_id",
 		"rejected", "rejected_servfail", "rejected_invalid_label", "rejected_extra_segments", "rejected_strict_foreign",
 		"open_configured_name_case", "open_deeper_subdomain", "open_empty_label_name", "open_noncanonical_path", "open_not_a_doh_path", "open_strict_empty_name", "open_strict_without_configured_name", "open_path_and_name_both_name_ids", "open_malformed_host_header", "open_point_processed",
-		"http_400_before_handler", "upstream_failed_unlogged", "burst_33_or_more"},
+		"http_400_before_handler", "upstream_failed_unlogged", "burst_33_or_more", "answered_by_server_unrecorded", "special_question_processed", "nonascii_lookalike_label"},
 }
